@@ -594,10 +594,10 @@ pub fn run(ctx: &Ctx, sh: &mut Shard) {
         let mut r = Rng::derive(ctx.seed, ctx.shard, k);
         let g = *r.pick(&[3i64, 4, 4, 5, 6, 8]);
         let lat = Lat::random(&mut r);
-        // one case in 300: a collection of realistic size - 60-150 cells of a grid (apart, or sharing edges), some of them
+        // one case in 500: a collection of realistic size - 60-150 cells of a grid (apart, or sharing edges), some of them
         // with a hole, one of them larger with a hole around others' - for unary_union; and a track of 130-700 coordinates
         // zig-zagging across a polygon, for clip
-        if k % 300 == 57 {
+        if k % 500 == 57 {
             let (nx, ny) = (r.range(6, 12), r.range(8, 12));
             let side = 4;
             let pitch = if r.chance(1, 2) { 4 } else { 5 };
@@ -720,9 +720,9 @@ pub fn run(ctx: &Ctx, sh: &mut Shard) {
                     check_clip(sh, &p, &lines, &lat, false);
                 }
             }
-            // one case in 60: operands with many rings / members / a node of high degree (hole grid, checkerboard, fan of
+            // one case in 120: operands with many rings / members / a node of high degree (hole grid, checkerboard, fan of
             // triangles, star polygon) against a moved copy, a rectangle over a quarter, or another such shape
-            _ if k % 60 == 31 => {
+            _ if k % 120 == 31 => {
                 let areal = |x: &IG| matches!(x, IG::Polygon(_) | IG::MultiPolygon(_) | IG::Rect(..));
                 let a = loop {
                     let (x, cls) = gen_large(&mut r);
